@@ -6,6 +6,7 @@ sys.path.insert(0, os.path.dirname(os.path.abspath(__file__)))
 import runner
 
 V = os.path.dirname(os.path.dirname(os.path.abspath(__file__)))
+BASE = {}
 
 
 def run(unit, repo="/repo", verbose=True):
@@ -14,6 +15,8 @@ def run(unit, repo="/repo", verbose=True):
         print("no mutants for", unit)
         return 0
     muts = json.load(open(p))
+    r0 = runner.run_unit(unit, repo, canary=False)
+    BASE[unit] = set(f.ident for f in r0.failures)
     bad = 0
     killed = neutral_ok = 0
     from concurrent.futures import ThreadPoolExecutor
@@ -29,14 +32,20 @@ def run(unit, repo="/repo", verbose=True):
             s = s.replace(m["find"], m["replace"])
             open(fp, "w").write(s)
             r = runner.run_unit(unit, scratch, canary=False)
-            return m, r.status, (r.undecided_reason or "") + " ".join(f.ident[:150] for f in r.failures[:3])
+            base = BASE.get(unit)
+            if r.status == "failures" and base is not None and set(f.ident for f in r.failures) <= base:
+                m["_only_known"] = True
+            return m, r.status, (r.undecided_reason or "") + " ".join(f.ident[:150] for f in r.failures if base is None or f.ident not in base)[:400]
         finally:
             shutil.rmtree(scratch, ignore_errors=True)
 
     with ThreadPoolExecutor(6) as ex:
         for m, status, info in ex.map(one, muts):
             exp = m["expect"]
-            ok = (exp == "violation" and status == "failures") or (exp == "pass" and status == "ok")
+            # the tree has known findings: a unit "passes" when its only failures are listed findings
+            if status == "failures" and m.get("_only_known"):
+                status = "ok"
+            ok = (exp == "violation" and status == "failures") or (exp == "pass" and status == "ok") or (exp == "undecided" and status == "undecided")
             if ok and exp == "violation":
                 killed += 1
             if ok and exp == "pass":
